@@ -23,6 +23,7 @@ import random
 import shutil
 import subprocess
 import sys
+import time
 import tarfile
 from concurrent.futures import ThreadPoolExecutor
 
@@ -55,10 +56,12 @@ def build_all():
 
 
 def build_desc(info):
+    """-> (harness of io/file.c's descriptor or None, driver of the extracted FileLenModel, why the harness does not build)"""
+    filedrv = core.build_model_driver("C14file", "ExtractC14File.v", os.path.join(HERE, "file_driver.ml"))
     try:
-        return B.compile_harness(info, [os.path.join(HERE, "h_file.c")], "h_file_c14"), None
+        return B.compile_harness(info, [os.path.join(HERE, "h_file.c")], "h_file_c14"), filedrv, None
     except Exception as e:  # noqa: BLE001
-        return None, str(e)
+        return None, filedrv, str(e)
 
 
 def build_fine(info):
@@ -687,20 +690,8 @@ def whole_file_relation(left, final):
     return None
 
 
-def desc_length_tie(f):
-    """io/file.c's descriptor (coq/C14/FileLenModel.v, theorem truncate_is_physical): the cached logical size IS the
-    physical length after every call.  Observed on the uninterrupted run: (1) the physical length the shim fstat()s after
-    call k equals the model's length of apply (firstn (k+1) trace) (extracted apply, K lines of the driver); (2) every
-    writer of the library writes at get_size() (the logical size), so - if logical = physical - every write except the
-    two super block writes at offset 0 starts exactly at the physical end of file (appendsb): a write that starts inside
-    the file means the logical size had fallen behind... or ahead of the physical one.  Returns a list of problems."""
-    probs = []
-    m = f.model
-    if m is None or not f.phys:
-        return ["no size log"] if f.rc == 0 else []
-    if len(f.phys) != m["n"]:
-        probs.append("size log has %d entries for %d calls" % (len(f.phys), m["n"]))
-        return probs
+def logged_calls(f):
+    """the output calls of the uninterrupted run as the shim logged them: [("W", off, len) | ("T", n, 0) | ("X", 0, 0)] or None"""
     calls = []
     try:
         for ln in open(f.log):
@@ -712,20 +703,51 @@ def desc_length_tie(f):
             else:
                 calls.append(("X", 0, 0))
     except (OSError, ValueError, IndexError):
+        return None
+    return calls
+
+
+def desc_length_tie(f, calls, mod):
+    """io/file.c's descriptor (coq/C14/FileLenModel.v, theorem truncate_is_physical): the cached logical size IS the
+    physical length after every call.  Observed on the uninterrupted run, against the EXTRACTED descriptor model run on the
+    logged calls (`mod`: fd_step Physical from fd0, props/C14/file_driver.ml; one driver process for all runs): (1) the
+    physical length the shim fstat()s after call k equals flen (fd_file) of the model after call k (and, as before, the
+    length of the extracted apply (firstn (k+1) trace), K lines of the trace driver); (2) every writer of the library
+    writes at get_size() (the logical size), so every write except the two super block writes at offset 0 starts at the
+    model's fd_size before the call, which is the end of the model's file (extracted appendsb of the step): a write that
+    starts inside the file means the real logical size had fallen behind... or ahead of the physical one.
+    Returns a list of problems."""
+    probs = []
+    m = f.model
+    if m is None or not f.phys:
+        return ["no size log"] if f.rc == 0 else []
+    if len(f.phys) != m["n"]:
+        probs.append("size log has %d entries for %d calls" % (len(f.phys), m["n"]))
+        return probs
+    if calls is None:
         return ["unreadable call log"]
+    if mod is None or len(mod["steps"]) != len(calls):
+        return ["no line of the extracted descriptor model (props/C14/file_driver.ml) for this run's %d calls" % len(calls)]
     for k, phys in enumerate(f.phys):
         mk = m["ks"].get(k + 1)
         if mk is not None and mk["size"] != phys and len(probs) < 3:
             probs.append("after call %d the file is %d bytes long (fstat), the model's file %d" % (k, phys, mk["size"]))
-        if k < len(calls) and calls[k][0] == "W" and calls[k][1] != 0 and calls[k][2] > 0:
-            before = f.phys[k - 1] if k > 0 else 0
-            if calls[k][1] != before and len(probs) < 3:
-                probs.append("call %d writes %d bytes at offset %d = get_size() while the file is physically %d bytes long: "
-                             "logical and physical length differ" % (k, calls[k][2], calls[k][1], before))
+        if k >= len(calls):
+            continue
+        msize, mlen, _ok, app = mod["steps"][k]
+        if mlen != phys and len(probs) < 3:
+            probs.append("after call %d the file is %d bytes long (fstat), the descriptor model's file %d (its get_size() %d)"
+                         % (k, phys, mlen, msize))
+        if calls[k][0] == "W" and calls[k][1] != 0 and calls[k][2] > 0:
+            before = mod["steps"][k - 1][0] if k > 0 else 0
+            if (calls[k][1] != before or not app) and len(probs) < 3:
+                probs.append("call %d writes %d bytes at offset %d = get_size() while the model's descriptor has size %d and the "
+                             "file is physically %d bytes long: logical and physical length differ"
+                             % (k, calls[k][2], calls[k][1], before, f.phys[k - 1] if k > 0 else 0))
     return probs
 
 
-def full_run(ctx, info, shim, drv, inp, base, fdrv=None):
+def full_run(ctx, info, shim, drv, inp, base, fdrv=None, mp=None):
     """uninterrupted run under the logging shim + model evaluation of the trace"""
     d = os.path.join(base, inp.name)
     os.makedirs(d, exist_ok=True)
@@ -755,8 +777,15 @@ def full_run(ctx, info, shim, drv, inp, base, fdrv=None):
     f.refs = {}
     f.n = 0
     f.model = None
+    f.calls = None
+    f.desc_idx = None
     if f.rc != 0:
         return f
+    # the logged calls go to the (one) process of the extracted descriptor model right away: it works on them while the
+    # trace driver below and the other runs are busy
+    f.calls = logged_calls(f)
+    if mp is not None and f.calls is not None:
+        f.desc_idx = mp.submit(desc_stage.trace_line(f.calls))
     for w in READERS:
         f.refs[w] = run_reader(info, w, f.img)
     try:
@@ -782,7 +811,7 @@ def full_run(ctx, info, shim, drv, inp, base, fdrv=None):
         f.phys = [int(x) for x in open(f.sizelog).read().split()]
     except (OSError, ValueError):
         pass
-    f.desc = desc_length_tie(f)
+    f.desc = None          # filled in by run(): one process of the extracted descriptor model for all runs
     # the logged calls as a refinement of the section-level trace recomputed from the image (coq/C14/SectionModel.v)
     f.fine = fine_stage.real_check(fdrv, f.log, f.img, preexec=big_stack) if fdrv else None
     return f
@@ -828,6 +857,9 @@ def run(ctx):
         "watches; real sqfs_writer_init / block processor / sqfs_writer_finish, toy compressor through -Wl,--wrap), "
         "props/C14/fine_stage.py",
         "props/C14/h_super.c, props/C14/driver.ml (hex I/O glue, md5 of the model's file)",
+        "props/C14/h_file.c, props/C14/file_driver.ml (call-sequence parsing, byte pattern, printing, hash of the model's file around "
+        "the extracted fd_step Physical / fop_ok / appendsb / fd_close of coq/Extract/ExtractC14File.v), props/C14/desc_stage.py "
+        "(generation, comparison, the one streaming driver process)",
         "props/C14/shim_io.c: LD_PRELOAD wrapper of pwrite/pwrite64/write/ftruncate/ftruncate64 (+ recording of "
         "writev/pwritev/fallocate/copy_file_range) on the output file; the logged calls are taken to be all output calls",
         "the model of POSIX pwrite/ftruncate on a regular file (TraceModel.apply_ev), re-checked at every kill point "
@@ -877,7 +909,7 @@ def run(ctx):
     ctx.log("component tie: %d cases, %d disagreements, %s" % (len(cases), len(comp_bad), comp_stats))
 
     # ---- descriptor leg: io/file.c write_at / truncate / get_size / drop vs FileLenModel (logical = physical length) ----
-    hd, desc_err = build_desc(info)
+    hd, filedrv, desc_err = build_desc(info)
     if replay and replay.get("kind") == "desc-harness":
         desc_cases = list(replay.get("lines", []))
     elif replay:
@@ -885,9 +917,16 @@ def run(ctx):
     else:
         desc_cases = desc_stage.gen_cases(ctx.seed, ctx.tier)
     desc_hbad, desc_hstat = [], {}
-    if hd and desc_cases:
-        desc_hbad, desc_hstat = desc_stage.run(hd, os.path.join(ctx.scratch, "h_file.tmp"), desc_cases)
-    ctx.log("descriptor harness: %s, %d disagreements" % (desc_hstat, len(desc_hbad)))
+    desc_hlines, desc_herr = [], None
+    if not hd:
+        desc_cases = []
+    # the extracted FileLenModel (fd_step Physical ...) on the harness cases and on the logged calls of every real run: ONE process
+    t_desc = time.time()
+    mp = desc_stage.ModelProc(filedrv, preexec=big_stack)
+    for c in desc_cases:
+        mp.submit(c)
+    if desc_cases:
+        desc_hlines, desc_herr = desc_stage.run_harness(hd, os.path.join(ctx.scratch, "h_file.tmp"), desc_cases)
 
     # ---- tie (b) + search ----
     base = os.path.join(ctx.scratch, "sweep")
@@ -900,7 +939,15 @@ def run(ctx):
             inputs = [i for i in inputs if i.name == replay["input"]]
     fulls = []
     with ThreadPoolExecutor(max_workers=8) as ex:
-        fulls = list(ex.map(lambda i: full_run(ctx, info, shim, drv, i, base, fdrv), inputs))
+        fulls = list(ex.map(lambda i: full_run(ctx, info, shim, drv, i, base, fdrv, mp), inputs))
+    desc_models, desc_merr = mp.finish()
+    ctx.log("extracted descriptor model: %d harness + %d tool call sequences in one process, done %.1f s after its start"
+            % (len(desc_cases), sum(1 for f in fulls if f.desc_idx is not None), time.time() - t_desc))
+    if desc_cases:
+        desc_hbad, desc_hstat = desc_stage.compare(desc_cases, desc_hlines, desc_herr, desc_models[:len(desc_cases)], desc_merr)
+    ctx.log("descriptor harness: %s, %d disagreements" % (desc_hstat, len(desc_hbad)))
+    for f in fulls:
+        f.desc = desc_length_tie(f, f.calls, desc_models[f.desc_idx] if f.desc_idx is not None else None)
     jobs = []
     shape_bad, apply_bad = [], []
     traces_ok = 0
@@ -1063,7 +1110,7 @@ def run(ctx):
                       "says): %s; calls: %s; kill sweep found %d concrete failures" % (why, line[:300], concrete),
                       dict(kind="desc-harness", lines=[l for k2, _, l in desc_hbad if k2 == kind][:5], detail=why,
                            correspondence="props/C14/h_file.c (sqfs_file_open, write_at, truncate, get_size, stat after every call, "
-                                          "sqfs_drop) vs FileLenModel"), no_input=True)
+                                          "sqfs_drop) vs the extracted FileLenModel (ExtractC14File.v, file_driver.ml)"), no_input=True)
     desc_bad = [f for f in fulls if f.rc == 0 and getattr(f, "desc", None)]
     stat["desc_length_runs_ok"] = sum(1 for f in fulls if f.rc == 0 and getattr(f, "desc", None) == [])
     stat["desc_length_calls"] = sum(len(f.phys) for f in fulls if f.rc == 0)
@@ -1077,8 +1124,9 @@ def run(ctx):
                       "(FileLenModel: logical size = physical length after every call, truncate_is_physical): %s; kill sweep found "
                       "%d concrete failures" % (f.inp.tool, f.inp.name, f.n, "; ".join(f.desc[:3]), concrete),
                       dict(kind="kill", input=f.inp.name, recipe=f.inp.recipe, args=f.inp.args, problems=f.desc[:3],
-                           correspondence="fstat length after every call = length of extracted apply (firstn (k+1) trace); "
-                                          "every write_at(get_size()) starts at the physical end of file"), no_input=True)
+                           correspondence="fstat length after every call = flen (fd_file) of the extracted fd_step Physical on the "
+                                          "logged calls = length of extracted apply (firstn (k+1) trace); every write_at(get_size()) "
+                                          "starts at the model's fd_size = end of the model's file (extracted appendsb)"), no_input=True)
     # ---- system-call level: refinement of the section trace (real runs) and exact call sequence (harness) ----
     fine_stat = dict(real_runs=0, real_refine_ok=0, sections_exact=0, sections_predicted=0, data_calls=0, truncations=0,
                      harness_cases=0, harness_exact=0, harness_calls=0, harness_truncations=0, harness_refused=0)
